@@ -823,4 +823,41 @@ Proof.
     destruct tnode as [tg at_ tx tl ks]. destruct node as [ng nat_ nx nl nks].
     cbn [with_kids with_attrs xtag xattrs xtext xtail xkids copyd erase]. reflexivity.
 Qed.
+
+(* the move handler returns (used for C08) *)
+Lemma exists_move_result f st d n t pos :
+  ainv f st d ->
+  alive f root n && negb (Nat.eqb n root) && alive f root t && is_elem f t
+    && negb (Forest.mem t (subtree (S (fnext f)) f n)) && Nat.leb pos (length (remove_id n (kidsof f t))) = true ->
+  exists st', handle_d c o rootns st (DMoveNode (gpath f n) (gpath f t) pos) = FOk st'.
+Proof.
+  intros HI C. apply and6 in C as (C1 & C2 & C3 & C4 & C5 & C6).
+  apply negb_true_iff, Nat.eqb_neq in C2. apply negb_true_iff in C5.
+  pose proof (ai_wf _ _ _ HI) as Hwf.
+  destruct (resolve_node f st d n HI C1) as (qn & kn & Ern & HLn & HGn & Hkn).
+  destruct (resolve_node f st d t HI C3) as (qt & kt & Ert & HLt & HGt & Hkt).
+  cbn [handle_d]. unfold handle_MoveNode, gpath. rewrite Ern. cbn [fbind].
+  rewrite (node_at_dt f st d qn kn HI HGn). cbn [fbind]. rewrite Ert. cbn [fbind].
+  destruct kn as [n0 node nkids]. cbn [did] in Hkn. subst n0.
+  assert (Hqn : qn <> []).
+  { intros ->. cbn in HGn. inversion HGn as [E]. rewrite E in *. pose proof (ai_root _ _ _ HI) as Hr. cbn [did] in Hr. congruence. }
+  set (dead := DN n (delete_node node) nkids).
+  set (d1 := dmap_at qn (fun _ => dead) d).
+  assert (Et1 : map_at qn delete_node (fs_tree st) = erase d1).
+  { unfold d1. rewrite (erase_dmap_const d qn _ _ HGn), (ai_erase _ _ _ HI). apply map_at_ext. intros x Hx.
+    rewrite <- (ai_erase _ _ _ HI), get_at_erase, HGn in Hx. inversion Hx; subst x. unfold dead. cbn [erase]. destruct node; reflexivity. }
+  rewrite Et1.
+  pose proof (rel_get ws f qn d _ (ai_rel _ _ _ HI) HLn HGn) as HRn.
+  assert (Htn : ~ In t (lids (DN n node nkids))).
+  { intros Hin. pose proof (lids_desc ws f _ HRn t Hin) as D. cbn [did] in D.
+    assert (Hs : In t (subtree (S (fnext f)) f n)).
+    { apply subtree_complete; [|exact D]. eapply fin_mono; [apply (fin_alive f root n Hwf); apply alive_iff; assumption|lia]. }
+    apply mem_In in Hs. congruence. }
+  assert (Hpre : is_prefix qn qt = false).
+  { destruct (is_prefix qn qt) eqn:E; [|reflexivity]. exfalso. apply is_prefix_app in E as [r ->].
+    destruct (dlpath_app_inv qn d r kt HLt HGt) as (ka & _ & Ga & Lr & Gr). rewrite HGn in Ga. inversion Ga; subst ka.
+    apply Htn. apply (lids_sub r _ kt Lr Gr). destruct kt as [t0 ? ?]. cbn [did] in Hkt. subst t0. rewrite lids_unfold. now left. }
+  destruct (dmap_other qn qt d (fun _ => dead) kt Hqn Hpre HLt HGt) as (HLt1 & kt1 & HGt1 & Hkt1).
+  fold d1 in HGt1. unfold node_at. rewrite get_at_erase, HGt1. cbn [option_map fbind]. eauto.
+Qed.
 End Acc.
